@@ -222,3 +222,80 @@ def native_remove_innovation_battery(seed=0):
         except Exception as e:
             problems.append(f"remove_innovation m=1 raised {type(e).__name__}: {e}")
     return problems, sc
+
+
+def native_sequence(seed=0, linear=False, k_edit=3.0, container="set"):
+    """STATEFUL bounded check: one filter instance with two sensors of DIFFERENT reading dimension, driven through a sequence of
+    Jacobian evaluations at different points (different dt), predictions (dt of the point, 0, another dt) and alternating
+    sensor updates (near and far readings).  Every result is compared with the exact oracle at ITS OWN inputs, so state kept
+    between calls (caches, remembered thresholds, reused buffers) shows up.  Returns (problems, scenario)."""
+    import numpy as np
+
+    sc = scenarios.Scenario(3, 1, 2, [1, 2], seed=seed, linear=linear)
+    try:
+        py, ekf = scenarios.build_ekf(sc, config={"innovation_filtering": k_edit}, container=container)
+    except Exception as e:
+        return [f"constructing the filter for a valid definition raised {type(e).__name__}: {(str(e).splitlines() or [''])[0]}"], sc
+    n = sc.n
+    AS = sorted(sc.state, key=lambda s: s.name)
+    AU = sorted(sc.control, key=lambda s: s.name)
+    problems = []
+    pts = [sc.point(seed), sc.point(seed + 1), sc.point(seed)]
+    pts[1][sc.dt] = pts[0][sc.dt] * 3  # a different step length at the second point
+    P = spd(n, seed + 2)
+    Pnp = np.array(P.tolist(), dtype=float).reshape((n, n))
+    try:
+        for step, pt in enumerate(pts):
+            state, ctl = scenarios.named_state(ekf, sc, pt), scenarios.named_control(ekf, sc, pt)
+            o = oracle(sc, pt, P)
+            d = mat_diff(f"call {step}: process_jacobian", ekf.process_jacobian(float(pt[sc.dt]), state, ctl), o["G"])
+            d = d or mat_diff(f"call {step}: control_jacobian", ekf.control_jacobian(float(pt[sc.dt]), state, ctl), o["V"])
+            if d:
+                problems.append(d)
+        base = sc.point(seed)
+        for step, dtv in enumerate([base[sc.dt], Fraction(0), base[sc.dt] / 2, Fraction(1, 2**40)]):
+            pt = dict(base)
+            pt[sc.dt] = dtv
+            state, ctl = scenarios.named_state(ekf, sc, pt), scenarios.named_control(ekf, sc, pt)
+            cov = ekf.Covariance.from_data(Pnp.copy())
+            r = ekf.process_model(float(dtv), state, cov, ctl)
+            o = oracle(sc, pt, P)
+            d = mat_diff(f"prediction {step} (dt={float(dtv)}): state", r.state.data, o["state"]) or mat_diff(f"prediction {step} (dt={float(dtv)}): covariance", r.covariance.data, o["covariance"])
+            if d:
+                problems.append(d)
+        rng = random.Random(seed + 9)
+        keys = sorted(sc.sensor_models, key=lambda kx: len(sc.sensor_models[kx]))  # m=1 first, then m=2, alternating
+        pt = base
+        state = scenarios.named_state(ekf, sc, pt)
+        cov = ekf.Covariance.from_data(Pnp.copy())
+        for step, (key, far) in enumerate([(keys[0], False), (keys[1], False), (keys[0], True), (keys[1], True), (keys[1], False), (keys[0], False)]):
+            rn = sorted(sc.sensor_models[key])
+            o0 = oracle(sc, pt, P, key, {r: 0 for r in rn}, k_edit)
+            hx = [Fraction(int(v.p), int(v.q)) for v in o0["hx"]]
+            reading = {r: hx[i] + Fraction(rng.randint(1, 12), 8) * (60 if far else 1) for i, r in enumerate(rn)}
+            if not far and k_edit:
+                # place NIS between the m=1 and the m=2 bound when possible: scale to 0.8 x this sensor's own threshold
+                o1 = oracle(sc, pt, P, key, reading, k_edit)
+                if o1["nis"] != 0:
+                    sroot = Fraction(math.sqrt(float(rat(Fraction(o1["threshold"] * 0.8).limit_denominator(10**6)) / o1["nis"]))).limit_denominator(10**9)
+                    reading = {r: hx[i] + (reading[r] - hx[i]) * sroot for i, r in enumerate(rn)}
+            o = oracle(sc, pt, P, key, reading, k_edit)
+            z = ekf.make_reading(key, **{r: float(v) for r, v in reading.items()})
+            res = ekf.sensor_model(state, cov, sensor_key=key, sensor_reading=z)
+            same = res[0] is state and res[1] is cov
+            near_boundary = o["threshold"] is not None and abs(float(o["nis"]) - o["threshold"]) < 1e-6 * max(1.0, o["threshold"])
+            if near_boundary:
+                continue
+            if same != bool(o["discard"]):
+                problems.append(f"update {step} (sensor with {len(rn)} reading(s), NIS {float(o['nis']):.6g}, bound {o['threshold']:.6g}): {'discarded' if same else 'accepted'}, the property's decision is {'discard' if o['discard'] else 'accept'}")
+                continue
+            if not same:
+                d = mat_diff(f"update {step}: posterior state", res[0].data, o["x_post"]) or mat_diff(f"update {step}: posterior covariance", res[1].data, o["P_post"])
+                if d:
+                    problems.append(d)
+            d = mat_diff(f"update {step}: recorded innovation", ekf.innovations[key], o["nu"])
+            if d:
+                problems.append(d)
+    except Exception as e:
+        problems.append(f"sequence raised {type(e).__name__}: {(str(e).splitlines() or [''])[0]}")
+    return problems, sc
